@@ -39,7 +39,9 @@ def real_to_complex(z, axis=0):
     if np.iscomplexobj(z):
         raise ValueError("Input must be real-valued.")
 
-    out_dtype = np.complex64 if z.dtype == np.float32 else np.complex128
+    # (float32 of either byte order)
+    is_single = z.dtype.kind == "f" and z.dtype.itemsize == 4
+    out_dtype = np.complex64 if is_single else np.complex128
     N = z.shape[axis]
 
     if N == 0:
